@@ -1,3 +1,4 @@
+#define _GNU_SOURCE
 /* C15 harness (part 1): the real socket event-loop handle of /repo
  * (muggle/c/net/socket_evloop_handle.c on top of the real event loop, select / poll / epoll)
  * driven with real AF_UNIX / loopback TCP sockets.
@@ -323,7 +324,13 @@ static void stop_loop(void)
 		muggle_evloop_exit(g_evloop);
 		__atomic_store_n(&g_pause_req, 0, __ATOMIC_RELEASE);
 		if (g_parked || g_timeout) { sem_post(&g_sem_resume); g_parked = 0; }
-		pthread_join(g_thr, NULL);
+		struct timespec ts; clock_gettime(CLOCK_REALTIME, &ts); ts.tv_sec += 15;
+		if (pthread_timedjoin_np(g_thr, NULL, &ts) != 0) {
+			/* the exit request was lost: nothing can be done with this process any more */
+			static const char msg[] = "hang: muggle_evloop_run did not return within 15 s of muggle_evloop_exit\n";
+			ssize_t r = write(2, msg, sizeof msg - 1); (void)r;
+			_exit(97);
+		}
 		g_exited = 1;
 	}
 }
